@@ -2,6 +2,10 @@ package main
 
 import (
 	"bytes"
+
+	"github.com/libsv/go-bk/bec"
+	"verif/internal/refsighash"
+
 	"crypto/sha1"
 	"encoding/json"
 	"fmt"
@@ -718,12 +722,27 @@ type c18Job struct {
 	flags scriptflag.Flag
 	// flagOpts is built once, when the jobs are made (one goroutine), from the process-wide option values
 	flagOpts []interpreter.ExecutionOptionFunc
+	// chains: the outputs of a parent transaction are OBJECTS shared between the parent (every
+	// goroutine validating it has its own *bt.Tx, all of them list these outputs) and the children
+	// spending them (which hand the very object to WithTx as the previous output)
+	sharedOuts []*bt.Output
+	sharedPrev *bt.Output
 }
 
 func (j *c18Job) run(e interpreter.Engine) string {
 	tx, err := bt.NewTxFromBytes(j.raw)
 	if err != nil {
 		return "decode: " + err.Error()
+	}
+	if j.sharedOuts != nil {
+		tx.Outputs = append([]*bt.Output{}, j.sharedOuts...)
+	}
+	if j.sharedPrev != nil {
+		opts := append([]interpreter.ExecutionOptionFunc{interpreter.WithTx(tx, j.idx, j.sharedPrev)}, j.flagOpts...)
+		if err = e.Execute(opts...); err == nil {
+			return "ok"
+		}
+		return err.Error()
 	}
 	// the flag options are VALUES shared by every execution of every goroutine (one WithFlags value
 	// per flag set, one of each convenience option, the convenience options in front)
@@ -766,6 +785,59 @@ func c18Jobs(seed uint64) []c18Job {
 		}
 		cs := c06Make(r, sp)
 		jobs = append(jobs, c18Job{raw: cs.Tx.Build().Bytes(), idx: cs.Idx, prev: cs.Lock, sats: cs.Sats, flags: scriptflag.Flag(fl)})
+	}
+	// chains: a parent whose second input carries a valid original-type SINGLE signature (its hash
+	// blanks the outputs in front of the matching one - on a copy), and children spending the
+	// parent's first output, with that output OBJECT as their previous output
+	for i := 0; i < 6; i++ {
+		r := prng.New(seed, "C18-chain-jobs", uint64(i))
+		mk := func() (*bec.PrivateKey, []byte) {
+			kb := r.Bytes(32)
+			kb[0] &= 0x7f
+			kb[31] |= 1
+			p, q := keyOf(kb)
+			return p, append(gen.Push(q.SerialiseCompressed()), 0xac)
+		}
+		kA, lockA := mk()
+		kB, lockB := mk()
+		_, lockC := mk()
+		parent := &gen.Shape{Version: 1, LockTime: uint32(i)}
+		parent.Ins = []gen.In{{TxID: r.Bytes(32), Vout: 0, Seq: 0xffffffff, Unlock: []byte{0x51}, PrevScript: []byte{}}, {TxID: r.Bytes(32), Vout: 1, Seq: 0xfffffffe, Unlock: []byte{}, PrevScript: []byte{}}}
+		parent.Outs = []gen.Out{{Sats: uint64(5000 + i), Script: lockB}, {Sats: uint64(700 + i), Script: lockC}}
+		ht := byte(0x03)
+		if i%2 == 1 {
+			ht = 0x83
+		}
+		dg, err := refsighash.LegacyDigest(shModelTx(parent), 1, lockA, uint32(ht))
+		if err != nil {
+			continue
+		}
+		parent.Ins[1].Unlock = gen.Push(append(signDER(kA, dg[:]), ht))
+		ptx := parent.Build()
+		shared := ptx.Outputs
+		pfl := scriptflag.Flag(0)
+		if i%3 == 2 {
+			pfl = scriptflag.UTXOAfterGenesis
+		}
+		jobs = append(jobs, c18Job{raw: ptx.Bytes(), idx: 1, prev: lockA, sats: uint64(900 + i), flags: pfl, sharedOuts: shared})
+		// children of output 0: one correctly signed, one signed with the wrong key
+		for variant := 0; variant < 2; variant++ {
+			child := &gen.Shape{Version: 1}
+			pid := ptx.TxIDBytes()
+			child.Ins = []gen.In{{TxID: pid, Vout: 0, Seq: 0xffffffff, Unlock: []byte{}, PrevScript: []byte{}}}
+			child.Outs = []gen.Out{{Sats: 1, Script: []byte{0x51}}}
+			cfl := scriptflag.EnableSighashForkID | scriptflag.UTXOAfterGenesis
+			cd, err := refsighash.ForkIDDigest(shModelTx(child), 0, lockB, uint64(5000+i), 0x41)
+			if err != nil {
+				continue
+			}
+			signer := kB
+			if variant == 1 {
+				signer = kA
+			}
+			child.Ins[0].Unlock = gen.Push(append(signDER(signer, cd[:]), 0x41))
+			jobs = append(jobs, c18Job{raw: child.Build().Bytes(), idx: 0, flags: cfl, sharedPrev: shared[0]})
+		}
 	}
 	// pure scripts
 	for i, v := range vectorCache {
@@ -836,6 +908,16 @@ func c18EngineHistory(c *mon.Ctx, h *c18Hist) {
 			seq[i] = jobs[i].run(interpreter.NewEngine())
 			if seq[i] == "ok" {
 				okN++
+			}
+			switch {
+			case jobs[i].sharedOuts != nil && seq[i] == "ok":
+				c.Count("engine:chain-parent-accepted-sequentially")
+			case jobs[i].sharedOuts != nil:
+				c.Count("engine:chain-parent-rejected-sequentially")
+			case jobs[i].sharedPrev != nil && seq[i] == "ok":
+				c.Count("engine:chain-child-accepted-sequentially")
+			case jobs[i].sharedPrev != nil:
+				c.Count("engine:chain-child-rejected-sequentially")
 			}
 		}
 		c.CountN("engine:jobs", int64(len(jobs)))
